@@ -55,7 +55,8 @@ def fock_cases(ctx, n_cases):
         return c
 
     kinds = ["twoModePure", "twoModeMixed", "blasPure1", "blasPure2", "blasMixed1", "blasMixed2", "mix",
-             "partialTrace", "projectResetPure", "projectResetMixed", "axisLists", "prepareAll", "prepareSome"]
+             "partialTrace", "projectResetPure", "projectResetMixed", "axisLists", "prepareAll", "prepareSome",
+             "dealloc", "alloc", "channel1"]
     # all ordered target pairs are cycled through, sizes 2..4 (thorough: 5)
     pair_cycle = {n: itertools.cycle(list(itertools.permutations(range(n), 2))) for n in range(2, 7)}
     for it in range(n_cases):
@@ -64,8 +65,10 @@ def fock_cases(ctx, n_cases):
         pure = kind in ("twoModePure", "blasPure1", "blasPure2", "mix", "projectResetPure")
         if kind == "prepareAll":
             pure = rng.random() < 0.5
-        if kind == "prepareSome":
+        if kind == "prepareSome" or kind == "channel1":
             pure = False
+        if kind in ("dealloc", "alloc"):
+            pure = rng.random() < 0.5
         nmax = (4 if pure else 3) + (1 if ctx.tier == "thorough" and D == 2 else 0)
         n = rng.randint(2 if "2" in kind or "two" in kind else 1, nmax)
         rank = n if pure else 2 * n
@@ -134,6 +137,45 @@ def fock_cases(ctx, n_cases):
                 return flat(fops.project_reset(ms, xs, st, pure, n, D))
             case = dict(kind=kind, n=n, D=D, modes=ms, xs=xs)
             nontrivial = n >= 2
+        elif kind == "dealloc":        # Circuit.dealloc(modes): (mix,) partial trace; several modes in any order
+            if pure:
+                n = min(n, 3)
+                st = rand_int_tensor(nprng, (D,) * n, density=rng.choice([1.0, 0.6]))
+            k = rng.randint(1, n)
+            ms = rng.sample(range(n), k)
+            req = dict(op="fock.apply", kind="dealloc", D=D, n=n, modes=ms, state=flat(st), mat=[], pure=pure)
+
+            def real(n=n, D=D, pure=pure, st=st, ms=ms):
+                c = circuit(n, D, pure, st)
+                c.dealloc(list(ms))
+                return flat(c._state)
+            case = dict(kind=kind, n=n, D=D, modes=ms, pure=pure)
+            nontrivial = n >= 3 and k >= 1
+        elif kind == "alloc":          # Circuit.alloc(k): vacuum modes appended
+            n = min(n, 3 if pure else 2)
+            st = rand_int_tensor(nprng, (D,) * (n if pure else 2 * n))
+            k = rng.randint(1, 2)
+            req = dict(op="fock.apply", kind="alloc", D=D, n=n, modes=list(range(k)), state=flat(st), mat=[], pure=pure)
+
+            def real(n=n, D=D, pure=pure, st=st, k=k):
+                c = circuit(n, D, pure, st)
+                c.alloc(k)
+                return flat(c._state)
+            case = dict(kind=kind, n=n, D=D, k=k, pure=pure)
+            nontrivial = True
+        elif kind == "channel1":       # Circuit._apply_channel(kraus_ops, [m]) on a mixed state
+            m1 = rng.randrange(n)
+            nk = rng.randint(0, 3)
+            ks = [rand_int_tensor(nprng, (D, D), -2, 2) for _ in range(nk)]
+            req = dict(op="fock.apply", kind="channel1", D=D, n=n, modes=[m1], state=flat(st),
+                       mat=[z for kk in ks for z in flat(kk)])
+
+            def real(n=n, D=D, st=st, ks=ks, m1=m1):
+                c = circuit(n, D, False, st)
+                c._apply_channel([np.array(kk) for kk in ks], [m1])
+                return flat(c._state)
+            case = dict(kind=kind, n=n, D=D, modes=[m1], kraus=nk)
+            nontrivial = n >= 2 and nk >= 2
         elif kind == "prepareAll":     # Circuit.prepare_multimode on the whole register, modes in any order
             ms = rng.sample(range(n), n)
             req.update(kind="prepareAll", modes=ms, mat=[], pure=pure)
